@@ -294,6 +294,16 @@ func (u *Unit) frameCheckWith(st *State, pos token.Pos, resBinds map[string]Valu
 						}
 					}
 					continue
+				case "allmaps":
+					v := oev.expr(call.Args[0])
+					if v.Typ != nil {
+						if mt, ok := v.Typ.Underlying().(*types.Map); ok {
+							for _, p := range []string{"MD:", "MV:", "MC:"} {
+								get(p + typeKey(mt)).wildcard = true
+							}
+						}
+					}
+					continue
 				case "chanLen", "wg":
 					continue
 				case "calls":
@@ -384,6 +394,11 @@ func (u *Unit) frameCheckWith(st *State, pos token.Pos, resBinds map[string]Valu
 	}
 	if heapAll {
 		return
+	}
+	if st.heapEpoch > 0 && !u.c.Flags["havoc_heap"] {
+		// something on this path forgot the whole heap (a call without contract or without modifies clause): families first
+		// read afterwards are not in st.heap, so the per-family check below cannot vouch for them
+		u.emit(st, "frame/heap", "false", "a call on this path may change any heap location, but the modifies clause does not say `heap`")
 	}
 	as := arraySort(SRef, SBool)
 	alloc0 := u.fam(entry, "alloc", as)
